@@ -180,16 +180,16 @@ class Task(NamedUIDObject):
                 self.append_z3_assertion(resource_busy_start >= self._start)
                 self.append_z3_assertion(resource_busy_start <= resource_busy_end)
             else:
-                if early_out > 0:
-                    self.append_z3_assertion(resource_busy_end == self._end - early_out)
-                else:
-                    self.append_z3_assertion(resource_busy_end == self._end)
-                if delay_in > 0:
-                    self.append_z3_assertion(
-                        resource_busy_start == self._start + delay_in
-                    )
-                else:
-                    self.append_z3_assertion(resource_busy_start == self._start)
+                busy_start = self._start + delay_in if delay_in > 0 else self._start
+                busy_end = self._end - early_out if early_out > 0 else self._end
+                if self.optional and (delay_in > 0 or early_out > 0):
+                    # a task that is not scheduled is a single point in the past, and so
+                    # is the time it keeps its resources busy: shifted by delay_in, the busy
+                    # interval would end before it starts and could reach the schedule
+                    busy_start = z3.If(self._scheduled, busy_start, self._start)
+                    busy_end = z3.If(self._scheduled, busy_end, self._end)
+                self.append_z3_assertion(resource_busy_end == busy_end)
+                self.append_z3_assertion(resource_busy_start == busy_start)
             # finally, store this resource into the resource list
             self._required_resources.append(resource)
 
